@@ -74,12 +74,20 @@ def convert(infile, out_file_name, **options):  # type: (str, str, **str) -> Non
         if options.get('ecus', False):
             ecu_list = options['ecus'].split(',')
             db = canmatrix.CanMatrix()
+            wanted_names = set()
             for ecu in ecu_list:
                 # an ecu without suffix is copied with its rx and its tx frames, whatever the previous entry asked for
                 direction = None
                 if ":" in ecu:
                     ecu, direction = ecu.split(":")
-                canmatrix.copy.copy_ecu_with_frames(ecu, dbs[name], db, rx=(direction != "tx"), tx=(direction != "rx"))
+                wanted_names.update(wanted.name for wanted in dbs[name].glob_ecus(ecu))
+                canmatrix.copy.copy_ecu_with_frames(ecu, dbs[name], db, rx=(direction != "tx"), tx=(direction != "rx"),
+                                                    direct_ecu_only=False)
+            # drop the ecus that are neither requested nor sender of a copied frame - once, after ALL requested ecus were
+            # copied: doing it per ecu removes the ecus requested later from the receivers of the frames copied earlier
+            for ecu in list(db.ecus):
+                if ecu.name not in wanted_names and not any(ecu.name in frame.transmitters for frame in db.frames):
+                    db.del_ecu(ecu)
         if options.get('frames', False):
             frame_list = options['frames'].split(',')
             db = canmatrix.CanMatrix() if db is None else db
